@@ -28,7 +28,7 @@ class QResult:
 
 def run(spec, start, ext_ops, cfg, pre_start_ops=(), max_steps=400, query_rng=None):
   res = QResult()
-  run_ = cg.Run(spec, spied=cfg.get('spied', True))
+  run_ = cg.Run(spec, spied=cfg.get('spied', True), foreign_deco=cfg.get('deco') == 'wraps')
   res.run = run_
   host = cfg['host']
   sem = threading.Semaphore(0)
